@@ -277,7 +277,12 @@ def cli_level(ctx: Ctx, cs, base, real=False, strace=False):
     # 2b. the reverse converter on inputs with and without final newline (expected: exactly get_kern_from_ekern(text))
     for nm, src in (('nofinal', expect.rstrip('\n')), ('final', expect), ('empty', ''),
                     # the same ekern text with CRLF line ends (a file edited on another platform): the line ends are content
-                    ('crlf', expect.replace('\n', '\r\n')), ('crlf-nofinal', expect.rstrip('\n').replace('\n', '\r\n'))):
+                    ('crlf', expect.replace('\n', '\r\n')), ('crlf-nofinal', expect.rstrip('\n').replace('\n', '\r\n')),
+                    # extended text that does not announce itself: an export without its header line (exclude=[HEADER]), the data lines
+                    # alone, a single extended token - the converter takes the separators out of whatever it is given
+                    ('headerless', expect.split('\n', 1)[1] if '\n' in expect else expect),
+                    ('data-lines-only', ''.join(ln + '\n' for ln in expect.split('\n') if '@' in ln or '·' in ln)),
+                    ('one-token', '4@c@#·L\n')):
         fin = os.path.join(root, 'single', f'raw-{nm}.ekrn')
         fout = os.path.join(root, 'single', f'raw-{nm}.krn')
         write(fin, src)
